@@ -1,6 +1,7 @@
 package cmd
 
 import (
+	"fmt"
 	"github.com/evolbioinfo/goalign/align"
 	"github.com/evolbioinfo/goalign/io"
 	"github.com/spf13/cobra"
@@ -24,6 +25,12 @@ goalign stats char -i align.fasta
 `,
 	RunE: func(cmd *cobra.Command, args []string) (err error) {
 		var aligns *align.AlignChannel
+
+		if len(charstatonly) != 1 {
+			err = fmt.Errorf("--only takes a single character (or * for all): %q", charstatonly)
+			io.LogError(err)
+			return
+		}
 
 		if aligns, err = readalign(infile); err != nil {
 			io.LogError(err)
